@@ -293,6 +293,8 @@ def run(chk):
                     nb = regions[n][1]
                     got[n] = int.from_bytes(res["mem"][off:off + nb], "little") if res["stop"] == "done" else None
                     off += nb
+                elif n in ("X", "Y"):
+                    got[n] = res.get(n) if res["stop"] == "done" else None
             chk.count("exemplar_runs")
             if got != k["expect"]:
                 chk.fail(k["signature"], k.get("what_fails", "known finding"), {"source": k["exemplar"], "level": level, "got": got, "expect": k["expect"]})
@@ -329,6 +331,11 @@ def run(chk):
 
 def classify(src, kind):
     import re
+    # known finding: Y (or a Y-indexed element) used in the same statement as an element subscripted by a
+    # memory operand — the subscript reloads Y, the other use sees the subscript instead of Y
+    for line in src.splitlines():
+        if re.search(r"\[(v\d|i\d|a\d\[)", line) and re.search(r"\bY\b", line) and kind == "wrong-value":
+            return "y-used-with-memory-subscript"
     if re.search(r"\bs\d\b", src) and kind == "wrong-value":
         return "sixteen-bit-" + kind
     return "c01-" + kind
